@@ -25,6 +25,10 @@ try:
         open(save, 'w').write(subprocess.check_output(['git', '-C', wt, 'diff']).decode())
     env = dict(os.environ, ASL_REPO=wt, ASL_EVIDENCE_DIR=os.path.join(wt, '.evidence'))
     for p in props:
+        if p.startswith('@'):   # @script.py: run a development script against the scratch tree instead of a registered check
+            r = subprocess.run([sys.executable, p[1:]], env=env, stdout=subprocess.PIPE, universal_newlines=True)
+            sys.stdout.write(r.stdout.replace(wt, '/repo'))
+            continue
         r = subprocess.run([sys.executable, os.path.join(os.path.dirname(os.path.abspath(__file__)), 'aslverif.py'), 'check', p, '--tier', os.environ.get('TIER', 'quick')],
                            env=env, stdout=subprocess.PIPE, universal_newlines=True)
         sys.stdout.write(r.stdout.replace(wt, '/repo'))
